@@ -23,6 +23,8 @@ func isTypeLetter(c byte) bool {
 	return false
 }
 
+var smallVals = []uint32{0, 1, 2, 3, 4, 7, 8, 9, 15, 16, 17, 21, 62, 63, 64, 127, 128, 255, 256, 257, 4095, 4096, 65535, 65536}
+
 // MutateBinary returns a structure-aware mutation of b: length/count field
 // edits at 4-byte aligned and unaligned offsets, truncations, bit flips, byte
 // sets, insertions, deletions, duplications and splices from other.
@@ -62,7 +64,14 @@ func MutateBinary(rng *rand.Rand, b, other []byte) []byte {
 				case 10, 11, 12, 13, 14, 15, 16, 17, 18, 19:
 					v = binary.LittleEndian.Uint32(out[o:]) + uint32(rng.Intn(3)) - 1
 				default:
-					v = lenVals[rng.Intn(len(lenVals))]
+					// mostly small and boundary values; the giant ones (wrap
+					// around in size arithmetic) usually just hit the memory
+					// limit, which costs a child process and judges nothing
+					if rng.Intn(4) != 0 {
+						v = smallVals[rng.Intn(len(smallVals))]
+					} else {
+						v = lenVals[rng.Intn(len(lenVals))]
+					}
 				}
 				binary.LittleEndian.PutUint32(out[o:], v)
 			}
